@@ -8,3 +8,4 @@ import XPathV.Theorems.C06
 #print axioms XPathV.Theorems.C06.expression_depth_guarded
 #print axioms XPathV.Theorems.C06.C06_total
 #print axioms XPathV.Theorems.C06.scanner_progress
+#print axioms XPathV.Theorems.C06.entry_points_cannot_panic_outside_recover
